@@ -300,7 +300,78 @@ fn big_insert(seed: u64, idx: u64, rep: &mut Report) {
     rep.count("single_edit_cases_with_k_over_24MiB", 1);
 }
 
-pub fn run(seed: u64, thorough: bool, cases: Option<u64>) -> Report {
+/// The file-based entry point (`AsyncCopiaSync::sync_files`, what `copia sync SRC DST` runs) reports how many literal
+/// bytes it used; the bound is the same. Sizes sit on the edges of the block arithmetic: a side of exactly one block,
+/// one byte less or more, an exact multiple, a last partial block, a side shorter than one block.
+fn sync_files_edges(seed: u64, idx: u64, work: &std::path::Path, rep: &mut Report) {
+    let mut rng = Rng::derive(seed, 1622, idx);
+    rep.evaluations += 1;
+    let bs = *rng.pick(&[512usize, 1024, 2048, 4096, 65536]);
+    let edge = |rng: &mut Rng| -> usize {
+        let k = rng.range(1, 4);
+        match rng.below(8) {
+            0 => bs,
+            1 => bs - 1,
+            2 => bs + 1,
+            3 => k * bs,
+            4 => k * bs + rng.range(1, bs - 1),
+            5 => rng.range(1, bs - 1),
+            6 => k * bs - 1,
+            _ => bs + 100,
+        }
+    };
+    let nb = edge(&mut rng);
+    let mut basis = rng.bytes(nb);
+    for (i, ch) in basis.chunks_mut(bs).enumerate() {
+        if ch.len() >= 4 {
+            ch[..4].copy_from_slice(&(i as u32 + 1).to_le_bytes());
+        }
+    }
+    // the source reuses the basis: a prefix of it, the whole of it plus a tail, a head plus the whole of it, one block of it
+    let shape = rng.below(5);
+    let extra_len = match rng.below(3) { 0 => 1, 1 => 100, _ => rng.range(1, bs) };
+    let extra = rng.bytes(extra_len);
+    let source: Vec<u8> = match shape {
+        0 => { let cut = edge(&mut rng); basis[..basis.len().min(cut)].to_vec() }
+        1 => [basis.clone(), extra.clone()].concat(),
+        2 => [extra.clone(), basis.clone()].concat(),
+        3 => {
+            let full = basis.len() / bs;
+            if full == 0 { [basis.clone(), extra.clone()].concat() } else { let b = rng.below(full as u64) as usize; [extra.clone(), basis[b * bs..(b + 1) * bs].to_vec()].concat() }
+        }
+        _ => [basis.clone(), basis.clone()].concat(),
+    };
+    if source == basis || source.is_empty() {
+        return;
+    }
+    let (rl, matches, _) = greedy_literals(&basis, &source, bs);
+    let dir = work.join(format!("c16sf-{}-{idx}", std::process::id()));
+    let _ = std::fs::create_dir_all(&dir);
+    let (sp, dp) = (dir.join("src"), dir.join("dst"));
+    let ctx = json!({"seed": seed, "case": idx, "family": "sync_files-edges", "bs": bs, "basis_bytes": basis.len(), "source_bytes": source.len(), "shape": shape});
+    if std::fs::write(&sp, &source).is_ok() && std::fs::write(&dp, &basis).is_ok() {
+        let r = crate::util::guarded(|| block_on(copia::async_sync::AsyncCopiaSync::with_block_size(bs).sync_files(&sp, &dp)));
+        match r {
+            Caught::Ok(Ok(res)) => {
+                if res.bytes_literal > rl {
+                    rep.violation("C16|sync_files|more-literals-than-greedy|block-edge-sizes", json!({"ctx": ctx, "copia_literal": res.bytes_literal, "reference_literal": rl, "ref_matches": matches}));
+                }
+                if std::fs::read(&dp).map(|d| d != source).unwrap_or(true) {
+                    rep.violation("C16|sync_files|destination-differs-from-source", json!({"ctx": ctx}));
+                }
+            }
+            Caught::Ok(Err(e)) => rep.violation("C16|sync_files|error", json!({"ctx": ctx, "err": e.to_string()})),
+            Caught::Panicked(m) => rep.violation("C16|sync_files|panic", json!({"ctx": ctx, "panic": m})),
+        }
+    }
+    let _ = std::fs::remove_dir_all(&dir);
+    if matches > 0 {
+        rep.distinct.insert(format!("sync_files|bs{bs}|shape{shape}"));
+    }
+    rep.count("sync_files_cases_on_block_edges", 1);
+}
+
+pub fn run(seed: u64, thorough: bool, cases: Option<u64>, work: &std::path::Path) -> Report {
     let n = cases.unwrap_or(if thorough { 30_000 } else { 1200 });
     let mut rep = par_cases(n, |i, r| general(seed, i, r));
     if !crate::util::tiny() {
@@ -309,6 +380,7 @@ pub fn run(seed: u64, thorough: bool, cases: Option<u64>) -> Report {
         rep.merge(par_cases(if thorough { 60 } else { 6 }, |i, r| single_edit_large(seed, i, r)));
         rep.merge(par_cases(n / 3, |i, r| basis_then_reuse(seed, i, r)));
         rep.merge(par_cases(if thorough { 16 } else { 3 }, |i, r| big_insert(seed, i, r)));
+        rep.merge(par_cases(if thorough { 20_000 } else { 1500 }, |i, r| sync_files_edges(seed, i, work, r)));
     }
     rep
 }
